@@ -15,6 +15,25 @@ def cases(draw, tier):
                              "p_gate": 80, "p_csum": 10, "p_always": 5, "p_fail": 12}))
     L = proj["layers"]
     allt = L["tops"] + L["mids"] + L["leaves"]
+    cyclic = False
+    if draw(st.integers(0, 99)) < 15:
+        # error-exit variant: a mid that (after a gated leaf, in the same redo-ifchange) asks for a top which itself
+        # depends on that mid -> the nested redo-ifchange meets a cyclic dependency while its first job still runs
+        for top in L["tops"]:
+            deps = [q for stt in proj["dofiles"][top + ".do"]["body"] if stt[0] == "dep" for q in stt[2]]
+            mids = [q for q in deps if q in L["mids"]]
+            if mids:
+                mid = mids[0]
+                body = proj["dofiles"][mid + ".do"]["body"]
+                for stt in body:
+                    if stt[0] == "dep":
+                        gated = [l for l in L["leaves"] if any(x[0] == "work" for x in proj["dofiles"][l + ".do"]["body"])]
+                        lead = gated[:1] or L["leaves"][:1]
+                        stt[2] = lead + [q for q in stt[2] if q not in lead] + [top]
+                        cyclic = True
+                        break
+                if cyclic:
+                    break
     inherited = draw(st.integers(0, 1)) == 1
     log_on = draw(st.integers(0, 1)) == 1
     env = {} if log_on else {"REDO_LOG": "0"}
@@ -41,7 +60,12 @@ def cases(draw, tier):
         invs.append({"argv": ["redo", "-j%d" % n2] + ts2, "cwd": "", "env": env2, "jobserver": None, "limit": n2})
     fails = sorted({s[1] for spec in proj["dofiles"].values() for s in spec["body"] if s[0] == "failflag"})
     failing = [f for f in fails if draw(st.integers(0, 2)) == 0]
-    return {"project": proj, "invs": invs, "schedule": draw(sgen.schedule(32)), "failing": failing,
+    if cyclic:
+        # make sure the cycle is reached: request the top that closes it
+        for inv in invs[:1]:
+            tops_in = [t for t in L["tops"] if t not in inv["argv"]]
+            inv["argv"] += L["tops"][:1] if L["tops"][0] not in inv["argv"] else []
+    return {"project": proj, "invs": invs, "schedule": draw(sgen.schedule(32)), "failing": failing, "cyclic": cyclic,
             "sopts": {"coincide": draw(st.integers(0, 2)) > 0, "token_games": inherited and draw(st.integers(0, 1)) == 1,
                       "patient": draw(st.integers(0, 2)) == 0, "start_first": draw(st.integers(0, 1)) == 1}}
 
@@ -90,7 +114,9 @@ def run_case(case, tier):
                 return out
         inv0 = r.invs[0]
         log_on = "REDO_LOG" not in inv0.spec["env"]
-        failing = bool(case.get("failing")) or "" in inv0.spec["argv"]
+        failing = bool(case.get("failing")) or "" in inv0.spec["argv"] or bool(case.get("cyclic"))
+        if case.get("cyclic") and any("cyclic" in t or "208" in t for t in texts):
+            out.events["c08:error-exit-with-jobs-running(cycle)"] += 1
         ev = out.events
         ev["c08:" + ("inherited" if r.jp else "own") + "-jobserver"] += 1
         if failing:
